@@ -159,7 +159,7 @@ func (fc *FnCtx) trCall(st *State, call *ast.CallExpr) []Val {
 			return nil
 		}
 		switch fn.Name() {
-		case "forall", "exists", "implies", "ite", "iteS", "byteStr", "reMatch", "reGroup", "itoa", "reMatchDyn":
+		case "forall", "exists", "implies", "ite", "iteS", "byteStr", "reMatch", "reGroup", "itoa", "reMatchDyn", "reSpan", "reAny":
 			return []Val{fc.trHelper(st, fn.Name(), call)}
 		}
 	}
@@ -183,6 +183,11 @@ func (fc *FnCtx) trCall(st *State, call *ast.CallExpr) []Val {
 	}
 	// contract in repo
 	if c := fc.w.cs.lookup(pkgPath, name); c != nil && !c.Extern {
+		if c.Opts["inline"] != "" {
+			if rs, ok := fc.inlineCall(st, call, fn, recvExpr, pkgPath, name); ok {
+				return rs
+			}
+		}
 		return fc.callByContract(st, call, fn, recvExpr, c)
 	}
 	// extern contracts: receiver-specific first
@@ -477,7 +482,7 @@ func (fc *FnCtx) trContractCall(st *State, call *ast.CallExpr) Val {
 		v := fc.tr(tmp, call.Args[0])
 		st.assume = tmp.assume
 		return v
-	case "implies", "ite", "iteS", "forall", "exists", "byteStr", "reMatch", "reGroup", "itoa", "reMatchDyn":
+	case "implies", "ite", "iteS", "forall", "exists", "byteStr", "reMatch", "reGroup", "itoa", "reMatchDyn", "reSpan", "reAny":
 		return fc.trHelper(st, name, call)
 	}
 	return fc.trContractCall2(st, call, name)
@@ -492,6 +497,18 @@ func (fc *FnCtx) trHelper(st *State, name string, call *ast.CallExpr) Val {
 	case "itoa":
 		v := fc.tr(st, call.Args[0])
 		return Val{T: "(itoa " + v.T + ")", S: SStr}
+	case "reSpan", "reAny":
+		rv := fc.tr(st, call.Args[0])
+		sv := fc.tr(st, call.Args[1])
+		if rv.S != SRec || rv.Rec == "" {
+			fc.errorf("contract: %s needs a regex object", name)
+			return boolVal("true")
+		}
+		id := fc.regexObjID(st, rv)
+		if name == "reSpan" {
+			return boolVal("(reobj_span " + id + " " + sv.T + ")")
+		}
+		return boolVal("(reobj_any " + id + " " + sv.T + ")")
 	case "reMatchDyn":
 		p := fc.tr(st, call.Args[0])
 		v := fc.tr(st, call.Args[1])
@@ -692,6 +709,12 @@ func (fc *FnCtx) trContractCall2(st *State, call *ast.CallExpr, name string) Val
 
 func (fc *FnCtx) callByContract(st *State, call *ast.CallExpr, fn *types.Func, recvExpr ast.Expr, c *Contract) []Val {
 	sig := fn.Type().(*types.Signature)
+	if fc.scope == nil && fc.contract != nil && fc.dry == 0 && fc.specMode == nil {
+		// lemmas to be instantiated right before calls of this callee (`use call <callee> ...`)
+		fc.useCallee = fn.Name()
+		fc.applyUses(st, "use-call", -1, call.Pos(), call)
+		fc.useCallee = ""
+	}
 	binds := map[string]Val{}
 	// receiver
 	var recvVal Val
@@ -700,7 +723,11 @@ func (fc *FnCtx) callByContract(st *State, call *ast.CallExpr, fn *types.Func, r
 	}
 	var argVals []Val
 	for _, a := range call.Args {
-		argVals = append(argVals, fc.tr(st, a))
+		v := fc.tr(st, a)
+		if t := fc.typeOf(a); t != nil && isNamed(t, "regexp", "Regexp") {
+			fc.bindRegexArg(st, a, v)
+		}
+		argVals = append(argVals, v)
 	}
 	if c.Extern {
 		names := c.Params
@@ -745,9 +772,20 @@ func (fc *FnCtx) callByContract(st *State, call *ast.CallExpr, fn *types.Func, r
 			tags = fc.contract.safetyTags()
 		}
 		fc.scope = nil
-		if strings.Contains(" "+fc.contract.Opts["trust-pre"]+" ", " "+cname+" ") {
+		if strings.Contains(" "+fc.contract.Opts["trust-pre"]+" ", " "+cname+" ") || strings.Contains(" "+fc.contract.Opts["trust-pre"]+" ", " "+cname+"/"+label+" ") {
 			// explicitly assumed at this caller (listed in the evidence)
-			fc.notes = append(fc.notes, fmt.Sprintf("ASSUMED precondition of %s at %s: %s", cname, fc.pos(call), cl.Text))
+			if fc.dry == 0 {
+				note := fmt.Sprintf("ASSUMED precondition of %s at %s: %s", cname, fc.pos(call), cl.Text)
+				dup := false
+				for _, n := range fc.notes {
+					if n == note {
+						dup = true
+					}
+				}
+				if !dup {
+					fc.notes = append(fc.notes, note)
+				}
+			}
 			st.addAssume(t.T)
 		} else {
 			fc.oblige(st, fmt.Sprintf("pre:%s#%d/%s", cname, ord, label), "pre", tags, t.T, "precondition of "+cname+": "+cl.Text, call)
@@ -1005,4 +1043,64 @@ func (fc *FnCtx) aliasCheck(st *State, call *ast.CallExpr) {
 			}
 			return ""
 		}()), call)
+}
+
+// inlineCall executes a straight-line callee (a constructor or trivial accessor marked
+// `opt inline`) symbolically in place: equivalent to its strongest contract. Only callees
+// whose body has a single path ending in one return are inlined.
+func (fc *FnCtx) inlineCall(st *State, call *ast.CallExpr, fn *types.Func, recvExpr ast.Expr, pkgPath, name string) ([]Val, bool) {
+	site := fc.w.funcs[pkgPath+"::"+name]
+	if site == nil || site.decl == nil || fc.inlineDepth > 3 {
+		return nil, false
+	}
+	sig := fn.Type().(*types.Signature)
+	var args []Val
+	for _, a := range call.Args {
+		args = append(args, fc.tr(st, a))
+	}
+	var recvVal Val
+	if recvExpr != nil {
+		recvVal = fc.tr(st, recvExpr)
+	}
+	// switch to the callee's package / signature for the duration of the body
+	savedPkg, savedSig, savedKeys, savedBody, savedContract := fc.pkg, fc.sig, fc.resultKeys, fc.body, fc.contract
+	fc.pkg, fc.sig, fc.body = site.pkg, sig, site.decl.Body
+	fc.contract = &Contract{Pkg: pkgPath, Func: name, Opts: map[string]string{}, Tags: savedContract.Tags, Safety: savedContract.Safety}
+	fc.resultKeys = nil
+	fc.inlineDepth++
+	for i := 0; i < sig.Results().Len(); i++ {
+		r := sig.Results().At(i)
+		if r.Name() != "" && r.Name() != "_" {
+			fc.resultKeys = append(fc.resultKeys, objKey(r))
+		} else {
+			fc.resultKeys = append(fc.resultKeys, fmt.Sprintf("inl%d_result%d", fc.counter, i))
+		}
+	}
+	restore := func() {
+		fc.pkg, fc.sig, fc.resultKeys, fc.body, fc.contract = savedPkg, savedSig, savedKeys, savedBody, savedContract
+		fc.inlineDepth--
+	}
+	if r := sig.Recv(); r != nil && recvExpr != nil {
+		fc.assignKey(st, objKey(r), r.Type(), recvVal)
+	}
+	for i := 0; i < sig.Params().Len() && i < len(args); i++ {
+		p := sig.Params().At(i)
+		fc.assignKey(st, objKey(p), p.Type(), args[i])
+	}
+	probe := st.clone()
+	fc.dry++
+	outs := fc.execBlock(probe, site.decl.Body.List)
+	fc.dry--
+	if len(outs) != 1 || (outs[0].Kind != OReturn && outs[0].Kind != ONormal) {
+		restore()
+		return nil, false
+	}
+	keys := fc.resultKeys
+	outs = fc.execBlock(st, site.decl.Body.List)
+	var results []Val
+	for i, k := range keys {
+		results = append(results, fc.readKey(st, k, sig.Results().At(i).Type()))
+	}
+	restore()
+	return results, true
 }
